@@ -1,0 +1,8 @@
+//go:build verif
+
+package run
+
+// ReloadForVerif triggers a configuration reload synchronously, as SIGHUP would do asynchronously
+func (orc *ReloadableOrchestrator) ReloadForVerif() {
+	orc.reload()
+}
